@@ -602,3 +602,30 @@ pub fn trace_rng_scalars(trace: &[merlin::observe::Event]) -> Vec<Scalar> {
         })
         .collect()
 }
+
+
+/// Payload of the panic raised when an *honest* operation this case depends on (proving a valid witness) fails. That is
+/// another property's finding (C01 / C06); the explorer turns it into a skipped case instead of a machinery error.
+pub struct HonestPrecondition(pub String);
+
+pub trait HonestExt<T> {
+    fn honest(self) -> T;
+}
+
+impl<T> HonestExt<T> for Result<T, ProofError> {
+    fn honest(self) -> T {
+        match self {
+            Ok(v) => v,
+            Err(e) => std::panic::panic_any(HonestPrecondition(format!("an honest prove failed: {}", crate::api::err_name(&e)))),
+        }
+    }
+}
+
+/// Run a harness preparation step; `None` if an honest operation it depends on failed (see `HonestPrecondition`)
+pub fn honest_scope<T>(f: impl FnOnce() -> T) -> Option<T> {
+    match std::panic::catch_unwind(std::panic::AssertUnwindSafe(f)) {
+        Ok(v) => Some(v),
+        Err(e) if e.downcast_ref::<HonestPrecondition>().is_some() => None,
+        Err(e) => std::panic::resume_unwind(e),
+    }
+}
